@@ -11,7 +11,7 @@ package openapi3
 
 import "regexp"
 
-//verif:harness id=C15 tier=quick,thorough witness=end bounds="VisitJSON on shared schemas: string with pattern (first use compiles and caches it), array with uniqueItems, object with defaults and oneOf branches (request mode with DefaultsSet), object/array-valued defaults with nested defaults, number with format; values symbolic as in C01/C13; footprint monitor on every path"
+//verif:harness id=C15 tier=quick,thorough witness=end bounds="VisitJSON on shared schemas: string with pattern (first use compiles and caches it), array with uniqueItems, object with a required list (a read-only name first), defaults and oneOf branches (request mode with DefaultsSet), object/array-valued defaults with nested defaults, number with format; values symbolic as in C01/C13; footprint monitor on every path"
 func verifH_C15_visit() {
 	var s *Schema
 	var v any
@@ -26,7 +26,7 @@ func verifH_C15_visit() {
 	case 2:
 		d := verifFiniteFloat("d")
 		branch := func(t string) *SchemaRef {
-			return &SchemaRef{Value: &Schema{Type: &Types{"object"}, Properties: Schemas{"k": {Value: &Schema{Type: &Types{t}}}, "f": {Value: &Schema{Type: &Types{"number"}, Default: d}}}}}
+			return &SchemaRef{Value: &Schema{Type: &Types{"object"}, Required: []string{"ro", "k"}, Properties: Schemas{"k": {Value: &Schema{Type: &Types{t}}}, "f": {Value: &Schema{Type: &Types{"number"}, Default: d}}, "ro": {Value: &Schema{Type: &Types{"string"}, ReadOnly: true}}}}}
 		}
 		s = &Schema{OneOf: SchemaRefs{branch("number"), branch("string")}}
 		o := map[string]any{}
